@@ -41,3 +41,37 @@ class Fixture:
             v = x * self.scale
             _shared[(x, self.scale)] = v
         return v
+
+
+class AttrFixture:
+    def __init__(self):
+        self.flag = True
+        self.data = b''
+        self._digest = None
+        self._tag = None
+        self._tag_for = None
+
+    @property
+    def digest(self):
+        # memo of a value that depends on self.flag
+        if not self._digest:
+            self._digest = (self.data, self.flag)
+        return self._digest
+
+    def flip_bad(self):
+        # changes a dependency of the memo without resetting it
+        self.flag = not self.flag
+
+    def tag(self, mode):
+        # validated memo: reused only for the mode it was built for
+        if self._tag and self._tag_for == mode:
+            return self._tag
+        self._tag = (mode, self.data)
+        self._tag_for = mode
+        return self._tag
+
+
+class AttrFixtureGood(AttrFixture):
+    def flip_good(self):
+        self.flag = not self.flag
+        self._digest = None
